@@ -1,33 +1,74 @@
-(* C01_proofs.v — spec-valid documents are accepted by the default rule plan (composition of the
-   per-rule equivalences, see ComposeFacts.v).
+(* C01_proofs.v — spec-valid documents are accepted by the default rule plan: composition of the
+   per-rule equivalences (ComposeFacts.v) with variables_in_allowed_position_iff
+   (C07_position_proofs.v) and no_fuel_exhaustion (C03_proofs.v).
 
-   Status of the ingredients:
-     no_fuel_exhaustion, wf_no_panic (C03_proofs.v)            — proved, used here;
-     variables_in_allowed_position_iff (C07_position_proofs.v)  — pending: the lemmas below are
-       stated (a) as implications from [viap_statement] (= the exact statement of that lemma) and
-       (b) closed, with R_VariablesInAllowedPosition excluded.
-   When C07_position_proofs.v is available, the closed lemmas expected by properties/C01.v are
-       From GTP Require Import C07_position_proofs.
-       Definition spec_valid_accepted := spec_valid_accepted_from_viap variables_in_allowed_position_iff.
-       Definition spec_valid_rule_silent := spec_valid_rule_silent_from_viap variables_in_allowed_position_iff. *)
+   CHANGED HYPOTHESIS.  The equivalence for VariablesInAllowedPosition holds only for documents
+   whose variable default values are constants ([defaults_const d], C07_position_proofs.v; the
+   grammar's DefaultValue : = Value[Const]).  The statements of properties/C01.v without that
+   hypothesis are false ([c01_needs_const_defaults] below), so:
+     spec_valid_accepted      has the additional hypothesis  defaults_const d = true,
+     spec_valid_rule_silent   has the additional hypothesis
+                              (r = R_VariablesInAllowedPosition -> defaults_const d = true). *)
 From GT Require Import Visitor Validate.
 From GTS Require Import Annot WfSchema SpecRules SpecValid.
-From GTP Require Import PlanFacts ComposeFacts C03_proofs.
+From GTP Require Import PlanFacts ComposeFacts C03_proofs C07_position_proofs.
 
-(* ---------------------------------------------------------------- (a) from the pending lemma *)
-Lemma spec_valid_accepted_from_viap : viap_statement -> forall s d,
-  wf_schema s = true -> doc_types_proper d = true -> spec_valid s d = true ->
+Lemma viap_statement_holds : viap_statement.
+Proof. exact variables_in_allowed_position_iff. Qed.
+
+Lemma fuel_statement_holds : fuel_statement.
+Proof. exact no_fuel_exhaustion. Qed.
+
+Lemma spec_valid_accepted : forall s d,
+  wf_schema s = true -> doc_types_proper d = true -> defaults_const d = true ->
+  spec_valid s d = true ->
   snd (run_rule R_OverlappingFieldsCanBeMerged s d ctx0) = mkRes [] false ->
   validate s d default_plan = Ok [].
-Proof. intro H. exact (spec_valid_accepted_sec H no_fuel_exhaustion). Qed.
+Proof. exact (spec_valid_accepted_sec viap_statement_holds fuel_statement_holds). Qed.
 
-Lemma spec_valid_rule_silent_from_viap : viap_statement -> forall s d r,
+Lemma spec_valid_rule_silent : forall s d r,
   wf_schema s = true -> doc_types_proper d = true -> spec_valid s d = true ->
-  r <> R_OverlappingFieldsCanBeMerged -> run_alone r s d = [].
-Proof. intro H. exact (spec_valid_rule_silent_sec H). Qed.
+  r <> R_OverlappingFieldsCanBeMerged ->
+  (r = R_VariablesInAllowedPosition -> defaults_const d = true) ->
+  run_alone r s d = [].
+Proof. exact (spec_valid_rule_silent_sec viap_statement_holds). Qed.
 
-(* ---------------------------------------------------------------- (b) closed, without it *)
-Lemma spec_valid_accepted_partial : forall s d,
+(* ---------------------------------------------------------------- the counterexample *)
+(* query Q($a: Int = $b, $b: String) { f(x: $a, y: $b) }  on
+   type Query { f(x: Int, y: String): Int }:
+   no rule is violated according to the specification (a variable inside a default value is not
+   a "variable usage" there, and the grammar does not even allow it); the model's
+   VariablesInAllowedPosition treats $b inside the default value as a usage at an Int location
+   and reports. *)
+Definition c01_cex_schema : sdocument :=
+  [SDType (TDObject "Query" []
+             [mkFD "f" [mkIV "x" (TNamed "Int") None; mkIV "y" (TNamed "String") None] (TNamed "Int")]);
+   SDType (TDScalar "Int"); SDType (TDScalar "String")].
+Definition c01_cex_doc : document :=
+  [DOp (mkOperation OpQuery (0%N, 0%N) (Some "Q")
+          [mkVardef (0%N, 0%N) "a" (TNamed "Int") (Some (VVar "b"));
+           mkVardef (0%N, 0%N) "b" (TNamed "String") None]
+          [] ((0%N, 0%N), (0%N, 0%N))
+          [SField (0%N, 0%N) None "f" [("x", VVar "a"); ("y", VVar "b")] []
+                  ((0%N, 0%N), (0%N, 0%N)) []])].
+
+Lemma c01_needs_const_defaults :
+  wf_schema c01_cex_schema = true /\ doc_types_proper c01_cex_doc = true /\
+  spec_valid c01_cex_schema c01_cex_doc = true /\
+  snd (run_rule R_OverlappingFieldsCanBeMerged c01_cex_schema c01_cex_doc ctx0) = mkRes [] false /\
+  run_alone R_VariablesInAllowedPosition c01_cex_schema c01_cex_doc <> [] /\
+  validate c01_cex_schema c01_cex_doc default_plan <> Ok [] /\
+  defaults_const c01_cex_doc = false.
+Proof. vm_compute. repeat split; discriminate. Qed.
+
+(* ---------------------------------------------------------------- without the condition on
+   default values: everything except VariablesInAllowedPosition *)
+Lemma spec_valid_rule_silent_other_rules : forall s d r,
+  wf_schema s = true -> doc_types_proper d = true -> spec_valid s d = true ->
+  r <> R_OverlappingFieldsCanBeMerged -> r <> R_VariablesInAllowedPosition -> run_alone r s d = [].
+Proof. exact spec_valid_rule_silent_noviap. Qed.
+
+Lemma spec_valid_accepted_given_position : forall s d,
   wf_schema s = true -> doc_types_proper d = true -> spec_valid s d = true ->
   snd (run_rule R_OverlappingFieldsCanBeMerged s d ctx0) = mkRes [] false ->
   run_alone R_VariablesInAllowedPosition s d = [] ->
@@ -43,8 +84,3 @@ Proof.
     + apply no_fuel_exhaustion, known_full_true, Ek.
     + rewrite (known_full_false r Ek), Hm. reflexivity.
 Qed.
-
-Lemma spec_valid_rule_silent_partial : forall s d r,
-  wf_schema s = true -> doc_types_proper d = true -> spec_valid s d = true ->
-  r <> R_OverlappingFieldsCanBeMerged -> r <> R_VariablesInAllowedPosition -> run_alone r s d = [].
-Proof. exact spec_valid_rule_silent_noviap. Qed.
